@@ -347,6 +347,9 @@ pub fn build(quick: bool) -> Vec<Scenario> {
         v.push(Scenario::new("C16", "poll", format!("poll.co.panic_yield.w{}", w), Arc::new(move |e| poll_run(e, w, true, &[Top::Panic, Top::Yield], 1, 0, false))));
         v.push(Scenario::new("C16", "poll", format!("poll.thread.ready_yield.w{}", w), Arc::new(move |e| poll_run_thread(e, w, &[Top::Ready, Top::Yield], 1, false, false))));
         v.push(Scenario::new("C16", "poll", format!("poll.thread.yield_yield.x2.w{}", w), Arc::new(move |e| poll_run_thread(e, w, &[Top::Yield, Top::Yield], 2, false, false))));
+        // an arm ends by cancellation (removed) and another one panics: the panic is re-raised whichever ends first
+        v.push(Scenario::new("C16", "poll", format!("poll.co.remove0.yield_panic.w{}", w), Arc::new(move |e| poll_run(e, w, true, &[Top::Yield, Top::Panic], 1, 0, true))));
+        v.push(Scenario::new("C16", "poll", format!("poll.co.remove0.sleep_panic.w{}", w), Arc::new(move |e| poll_run(e, w, true, &[Top::Sleep, Top::Panic], 1, 0, true))).t2());
         // an arm that is removed (cancelled) while its top half is between cancellation points
         v.push(Scenario::new("C16", "poll", format!("poll.thread.remove0.busy_yield.w{}", w), Arc::new(move |e| poll_run_thread(e, w, &[Top::Busy, Top::Yield], 1, true, false))));
         v.push(Scenario::new("C16", "poll", format!("poll.thread.remove0_at_send.busy_yield.w{}", w), Arc::new(move |e| poll_run_thread(e, w, &[Top::Busy, Top::Yield], 1, true, true))));
